@@ -130,8 +130,11 @@ impl MemoryManager {
 
     pub fn remove_token(&self, token: *const MemToken) {
         self.update_token(token);
-        let mut inner = self.mem_manager.lock().unwrap();
-        inner.remove_token(token);
+        {
+            let mut inner = self.mem_manager.lock().unwrap();
+            inner.remove_token(token);
+        }
+        // not under the manager lock: free() needs it to complete or start an epoch
         self.free(token as *mut MemToken, 1);
     }
 
